@@ -23,6 +23,25 @@ typedef ssize_t (*enc_fn)(MPT_STRUCT(encode_state) *, const struct iovec *, cons
 typedef int (*dec_fn)(MPT_STRUCT(decode_state) *, const struct iovec *, size_t);
 static enc_fn encs[] = { mpt_encode_cobs, mpt_encode_cobs_r, mpt_encode_cobs_zpe, mpt_encode_cobs_zpe_r, mpt_encode_string };
 static dec_fn decs[] = { mpt_decode_cobs, mpt_decode_cobs_r, mpt_decode_cobs_zpe, mpt_decode_cobs_zpe_r, mpt_decode_command };
+/* the coders are taken through the library's selectors (mptcore/convert/encoder.c, decoder.c), the way users name a framing;
+ * a selector that hands out another coder than the one the framing names shows as a differing frame */
+static const int codes[] = {
+	MPT_ENUM(EncodingCobs), MPT_ENUM(EncodingCobsInline),
+	MPT_ENUM(EncodingCobs) | MPT_ENUM(EncodingCompress), MPT_ENUM(EncodingCobsInline) | MPT_ENUM(EncodingCompress),
+	MPT_ENUM(EncodingCommand)
+};
+static enc_fn sel_enc(int v)
+{
+	enc_fn e = (enc_fn) mpt_message_encoder(codes[v]);
+	if (!e || mpt_message_encoder(0) || mpt_message_encoder(0x7f)) { vh_tok("SELECT"); return encs[v]; }
+	return e;
+}
+static dec_fn sel_dec(int v)
+{
+	dec_fn d = (dec_fn) mpt_message_decoder(codes[v]);
+	if (!d || mpt_message_decoder(0) || mpt_message_decoder(0x7f)) { vh_tok("SELECT"); return decs[v]; }
+	return d;
+}
 
 static uint8_t *win;
 static size_t cap;
@@ -76,7 +95,7 @@ static void run_case(int ntok, char **tok)
 {
 	int v = vh_int(tok[1]);
 	int t = 2;
-	enc_fn enc = encs[v];
+	enc_fn enc = sel_enc(v);
 	memset(&st, 0, sizeof(st));
 	memset(&arr, 0, sizeof(arr));
 	arr._enc = enc;
@@ -156,7 +175,7 @@ static void run_case(int ntok, char **tok)
 			src.iov_base = buf; src.iov_len = slack + term;
 			vh_tok("M:%zu|", zeros);
 			while (++guard < 100000) {
-				int r = decs[v](&ds, &src, 1);
+				int r = sel_dec(v)(&ds, &src, 1);
 				if (r <= 0 || ds.data.msg < 0) {
 					if (r < 0 && !(r == MPT_ERROR(MissingData) && ds.curr >= slack + term)) { vh_add("%sX", first ? "" : ","); first = 0; }
 					else if (ds.curr < slack + term) { vh_add("%sX", first ? "" : ","); first = 0; }
